@@ -23,6 +23,7 @@ from vlib.main import Xh
 rt.logger = NoLog()
 xt.logger = NoLog()
 NLINES = tier(2, 3)
+NLINES_SAST = 2  # the SAST obligation also forks on findings per line: 3 lines x 5 pool entries x 2 patterns did not finish in 900 s
 NSPANS = tier(2, 2)
 LLEN = tier(2, 3)
 CLEN = tier(3, 4)
@@ -129,7 +130,7 @@ def regex_sast(sels: List[int], spans: List[Tuple[int, int]], norm: bool) -> boo
     """SastRegexTransformerPipeline._apply: only lines that carry a finding are edited; each edit has one change
     with the findings of that line; a finding line the pattern cannot fix is reported unfixed; all other lines
     are byte-identical.
-    pre: len(sels) <= NLINES and 1 <= len(spans) <= NSPANS and all(1 <= s <= e <= 4 for s, e in spans)
+    pre: len(sels) <= NLINES_SAST and 1 <= len(spans) <= NSPANS and all(1 <= s <= e <= 4 for s, e in spans)
     post: _
     """
     lines = _lines(sels)
@@ -614,7 +615,7 @@ SPEC = {
     ],
     "bounds": {
         "quick": "<= 2 (thorough 3) lines chosen from a pool of 5 (empty, one match, no match, two matches, a match the replacement reproduces), plain or normalising pattern, <= 2 findings with symbolic line ranges in 1..4; XML character data / CDATA / comment / PI content of <= 3 symbolic characters (any Unicode); attribute values of <= 2 characters over the 9 classes escape()/quoteattr() distinguish, locator and finding positions unbounded ints",
-        "thorough": "3 lines, XML strings of <= 4 characters",
+        "thorough": "3 lines (regex_plain; regex_sast stays at 2), XML strings of <= 4 characters",
     },
     "assumptions": [
         "expat generates the SAX/lexical events of the document faithfully (trusted); handlers are driven directly",
